@@ -2022,11 +2022,17 @@ class BaseInterpreter(Generic[TContext, TEvent]):
                 child.type == "history" for child in state.states.values()
             ):
                 continue
-            remembered = [
-                node
-                for node in self._active_state_nodes
-                if node is not state and self._is_descendant(node, state)
-            ]
+            # 🔀 Sorted, because `_active_state_nodes` is a set: the order of
+            #    this list is the order in which the states are re-entered on
+            #    restore, and set order depends on object addresses.
+            remembered = sorted(
+                (
+                    node
+                    for node in self._active_state_nodes
+                    if node is not state and self._is_descendant(node, state)
+                ),
+                key=lambda n: (n.depth, n.id),
+            )
             if remembered:
                 self._history[state.id] = remembered
                 logger.debug(
